@@ -22,6 +22,12 @@ type messageSetReader struct {
 	// This is used to detect truncation of the response.
 	lengthRemain int
 
+	// Offset following the last record batch (format 2) that the reader has
+	// gone past entirely: all its records were read, or it had none left
+	// after compaction. Offsets below it cannot be found in the rest of the
+	// message set.
+	passed int64
+
 	decompressed *bytes.Buffer
 }
 
@@ -126,8 +132,15 @@ func (r *messageSetReader) readMessage(min int64, key readBytesFunc, val readByt
 		err = RequestTimedOut
 		return
 	}
-	if err = r.readHeader(); err != nil {
-		return
+	for {
+		if err = r.readHeader(); err != nil {
+			return
+		}
+		if r.header.magic != 2 || r.count != 0 {
+			break
+		}
+		// A record batch that compaction left empty: it only occupies a range
+		// of offsets, move on to the header that follows it.
 	}
 	switch r.header.magic {
 	case 0, 1:
@@ -407,6 +420,11 @@ func (r *messageSetReader) readHeader() (err error) {
 	if r.count > 0 {
 		// currently reading a set of messages, no need to read a header until they are exhausted.
 		return
+	}
+	if r.header.magic == 2 {
+		// The batch described by the current header has no record left,
+		// whatever comes next the reader is past its last offset.
+		r.passed = r.header.firstOffset + int64(r.header.v2.lastOffsetDelta) + 1
 	}
 	r.header = messagesHeader{}
 	if err = r.readInt64(&r.header.firstOffset); err != nil {
